@@ -7,6 +7,9 @@ import (
 	"bytes"
 	"fmt"
 	"hash/fnv"
+	"os"
+	"path/filepath"
+	"regexp"
 	"runtime"
 	"sort"
 	"strings"
@@ -26,6 +29,9 @@ const goroutines = 16
 type set struct {
 	Names []string `json:"names"`
 	Texts []string `json:"texts"`
+	// Disk: the texts are written to a directory of their own and loaded from there (Read, with
+	// the directory on the search path), as a caller with files does
+	Disk bool `json:"disk,omitempty"`
 }
 
 func gen(seed, idx int64) set {
@@ -58,11 +64,111 @@ func gen(seed, idx int64) set {
 		}
 		s.Texts[len(s.Texts)-1] = last
 	}
+	// One set in four is loaded from files and holds an import that names a revision which is
+	// not there while another revision of that module is: the import denotes the loaded one,
+	// and path lookups through its prefix are reads like any other.
+	if idx%4 == 2 || (idx%16 == 0 && (idx/16)%2 == 1) { // (the shared set of a reader round has an index that is a multiple of 16)
+		s.Disk = true
+		s.Names = append(s.Names, "zzrevdep.yang", "zzrevuser.yang")
+		s.Texts = append(s.Texts,
+			"module zzrevdep {\n  namespace \"urn:zzrevdep\";\n  prefix zrd;\n  revision 2021-06-01;\n  typedef t { type int32; }\n  container top { leaf val { type string; } }\n}\n",
+			"module zzrevuser {\n  namespace \"urn:zzrevuser\";\n  prefix zru;\n  import zzrevdep { prefix f; revision-date 2020-01-01; }\n  augment \"/f:top\" { leaf extra { type f:t; default 1; } container more { leaf deep { type string; } } }\n  leaf own { type f:t; }\n}\n")
+	}
+	// One set in five has a text that the syntax tree builder refuses: a mandatory substatement
+	// is missing (namespace, prefix, belongs-to, the type of a leaf), a statement is unknown, or
+	// a single-valued one stands twice. The error paths of the builder run concurrently with
+	// the builds of the other goroutines, and the error text is part of the outcome.
+	if idx%5 == 1 {
+		r := g.R
+		k := len(s.Texts) - 1 - r.Intn(len(g.Mods))
+		t := s.Texts[k]
+		dropLine := func(prefix string) {
+			lines := strings.Split(t, "\n")
+			for i, l := range lines {
+				if strings.HasPrefix(l, prefix) {
+					lines = append(lines[:i], lines[i+1:]...)
+					break
+				}
+			}
+			t = strings.Join(lines, "\n")
+		}
+		switch r.Intn(7) {
+		case 0:
+			dropLine("  prefix ")
+			dropLine("  belongs-to ")
+		case 1:
+			dropLine("  namespace ")
+			dropLine("  belongs-to ")
+		case 2:
+			dropLine("  namespace ")
+			dropLine("  prefix ")
+		case 3:
+			if loc := regexp.MustCompile(`\n\s+type [a-z0-9:]+;`).FindStringIndex(t); loc != nil {
+				t = t[:loc[0]] + t[loc[1]:]
+			} else {
+				dropLine("  prefix ")
+			}
+		case 4:
+			if i := strings.Index(t, "{\n"); i >= 0 {
+				t = t[:i+2] + "  frobnicate y;\n" + t[i+2:]
+			}
+		case 5:
+			if i := strings.Index(t, "\n  prefix "); i >= 0 {
+				t = t[:i] + "\n  prefix twice;" + t[i:]
+			} else {
+				dropLine("  belongs-to ")
+			}
+		default:
+			if i := strings.Index(t, "  import "); i >= 0 {
+				j := strings.Index(t[i:], "\n")
+				t = t[:i] + "  import " + strings.Fields(t[i : i+j])[1] + ";" + t[i+j:] // an import without prefix
+			} else {
+				dropLine("  namespace ")
+			}
+		}
+		s.Texts[k] = t
+	}
 	return s
 }
 
 func load(s set) (*yang.Modules, []error) {
 	ms := yang.NewModules()
+	if s.Disk {
+		// (one directory per set, named after its content, so that every load of the set sees
+		// the same file names in positions; files are put in place by rename, since several
+		// goroutines may load the same set at once)
+		h := fnv.New64a()
+		for i := range s.Texts {
+			h.Write([]byte(s.Names[i]))
+			h.Write([]byte(s.Texts[i]))
+		}
+		dir := fmt.Sprintf("disk-%016x", h.Sum64())
+		if err := os.MkdirAll(dir, 0o755); err != nil {
+			return ms, []error{err}
+		}
+		for i := range s.Texts {
+			dst := filepath.Join(dir, s.Names[i])
+			if _, err := os.Stat(dst); err == nil {
+				continue
+			}
+			if f, err := os.CreateTemp(dir, "tmp*"); err == nil {
+				f.WriteString(s.Texts[i])
+				f.Close()
+				os.Rename(f.Name(), dst)
+			}
+		}
+		ms.AddPath(dir)
+		for i := range s.Texts {
+			// (a module that an earlier one imports has been fetched already)
+			if ms.Modules[strings.TrimSuffix(s.Names[i], ".yang")] != nil || ms.SubModules[strings.TrimSuffix(s.Names[i], ".yang")] != nil {
+				continue
+			}
+			if err := ms.Read(filepath.Join(dir, s.Names[i])); err != nil {
+				return ms, []error{err}
+			}
+		}
+		return ms, ms.Process()
+	}
 	for i := range s.Texts {
 		if err := ms.Parse(s.Texts[i], s.Names[i]); err != nil {
 			return ms, []error{err}
